@@ -129,6 +129,10 @@ func c13Faults() []faultForm {
 		{"each-variable-named-loop-multi-line-loop", "@each(loop in ['zzFault'])\nx\n@end", false},
 		{"each-variable-retyped-multi-line-loop", "{{ zzW = 1 }}@each(zzW in ['zzFault'])\nx\n\n@end", false},
 		{"for-post-retypes-multi-line-loop", "@for(zzI = 0; zzI < 3; zzI = 'zzFault')\nx\n@end", false},
+		// the offending construct is a string literal that spans lines: the line is the one its token ends on (the marker's)
+		{"mistyped-operand-multi-line-string", "{{ \"first\nsecond\nzzFault\" + 1 }}", false},
+		{"mistyped-operand-multi-line-string", "{{ 'a\n\nzzFault' * 2 }}", false},
+		{"unknown-property-multi-line-string-index", "{{ {a: 1}[\"na\nzzFault\"] }}", false},
 		// an unknown name at every position an expression can stand in: the line is that of the name
 		{"unknown-identifier-at-shorthand-property", "{{ zzO2 = { zzFault } }}", false},
 		{"unknown-identifier-at-shorthand-property", "{{ zzA2 = 1 }}\n{{ { zzA2, zzFault } }}", false},
